@@ -2,7 +2,7 @@
 # runall.sh [tier] - runs every claimed check once (sequentially) against /repo and prints one line each
 tier=${1:-quick}
 export GOFLAGS=-mod=mod GOPROXY=off GOSUMDB=off GOTOOLCHAIN=local
-cd /verif
+cd "$(dirname "$0")"
 for p in $(cat claimed.txt); do
   out=$(./check $p --tier $tier 2>&1); rc=$?
   echo "$p rc=$rc $(echo "$out" | grep -a '^property=' | tail -1)"
